@@ -2169,7 +2169,7 @@ class QuaternionArray(np.ndarray):
             if 'rpy' in kwargs:
                 q = QuaternionArray.from_rpy(QuaternionArray, kwargs.pop("rpy"))
             elif 'angles' in kwargs:
-                q = QuaternionArray.from_angles(QuaternionArray, kwargs.pop("angles"))
+                q = QuaternionArray.from_rpy(QuaternionArray, kwargs.pop("angles"))      # Older keyword, as in Quaternion(angles=...)
             elif 'DCM' in kwargs:
                 q = QuaternionArray.from_DCM(QuaternionArray, kwargs.pop("DCM"), inplace=False, **kwargs)
             else:
